@@ -75,6 +75,7 @@ type World struct {
 	Balance  string `json:"balance"`   // genesis admin balance
 	Strategy string `json:"strategy"`  // strategy expression for all modules ("" = shipped a > 0.5 * t)
 	ChainID  uint64 `json:"chain_id"`
+	GasLimit uint64 `json:"gas_limit,omitempty"` // the operator's gas_limit (0 = shipped 100000000)
 }
 
 func (w World) adminKey(i int) *Key { return keyFor(fmt.Sprintf("admin%d", i)) }
@@ -89,6 +90,9 @@ func (w World) config(proofType string) *repo.Config {
 	cfg.Executor.ProofType = proofType
 	cfg.Executor.EnableAudit = w.Audit
 	cfg.Genesis.ChainID = w.ChainID
+	if w.GasLimit != 0 {
+		cfg.GasLimit = w.GasLimit
+	}
 	cfg.Genesis.BvmGasPrice = w.GasPrice
 	if w.Balance != "" {
 		cfg.Genesis.Balance = w.Balance
